@@ -288,6 +288,23 @@ def _():
         str(m); parse_marker(str(m))
     return ok
 
+@w("D48")
+def _():
+    from poetry.core.version.markers import parse_marker
+    from poetry.core.constraints.version import parse_constraint, Version
+    from poetry.core.packages.utils.utils import get_python_constraint_from_marker
+    ok = True
+    grid = [f"3.{mi}.{pa}" for mi in range(6, 12) for pa in (0, 1, 5)]
+    env = lambda py: {"python_full_version": py, "python_version": ".".join(py.split(".")[:2])}
+    for text in ['python_version in "3.7, 3.8" and python_full_version > "3.8.0"', 'python_full_version >= "3.8.1" and python_version in "3.7 3.8 3.9"',
+                 'python_version in "3.7, 3.8" and python_version in "3.8, 3.9"', 'python_version not in "3.7, 3.8" and python_version >= "3.6"']:
+        m = parse_marker(text); c = get_python_constraint_from_marker(m)
+        ok = ok and all(c.allows(Version.parse(py)) == m.validate(env(py)) for py in grid)
+    m = parse_marker('python_version == "3.9" or (python_version in "3.7, 3.8" and python_full_version > "3.8.0")')
+    pc = parse_constraint("~3.7 || ~3.9"); r = m.reduce_by_python_constraint(pc)
+    ok = ok and all(r.validate(env(py)) == m.validate(env(py)) for py in grid if pc.allows(Version.parse(py)))
+    return ok
+
 if __name__ == "__main__":
     ids = sys.argv[1:] or list(W)
     bad = 0
